@@ -36,6 +36,7 @@ def main():
     if args.replay:
         return replay(H, prop, args.replay)
     t0 = time.time()
+    repo0 = lib.repo_state()
     rng = random.Random(seed)
     tier = args.tier
     broken = []          # proof obligations / ties that no longer check: (kind, name, detail)
@@ -136,6 +137,12 @@ def main():
             else:
                 new_viol.append(v)
 
+    repo1 = lib.repo_state()
+    if repo1 != repo0:
+        # the library changed under the run (a commit or an edit while workers were importing it): no verdict, no evidence
+        lib.log(f"[{prop}] REPO-CHANGED-DURING-RUN {repo0} -> {repo1}: this run is unusable, run the check again")
+        return 2
+    notes.append(f"repo revision {repo0[0]}, working-tree digest {repo0[1]} (unchanged over the run)")
     rc = 0
     replay_dir = lib.VERIF / "replay" / prop
     for fid, f in open_f.items():
